@@ -11,7 +11,8 @@ P("C34",
              "AverageTimeTracer floor(sum/count), BusyTimeTracer (at quiescence or after TerminateAllTasks) the number of "
              "unit instants covered by the union of the intervals, and TagCountTracer per name the number of tags and of "
              "distinct tracked tasks. The model (uint64 wrap, Go maps, list elements with stale pointers) is compared "
-             "output-for-output with the real tracers fed through tracing.StartTask/EndTask/AddTaskTag on every run.",
+             "output-for-output with the real tracers fed through tracing.StartTask/EndTask/AddTaskTag on every run; "
+             "c34_model_agreement_implies_property links the two case evaluators.",
   level_note="Trusted: Coq kernel + vm_compute; the Go harness (domain clock, CollectTrace, getters); the hand-written model "
              "of the four tracer files (tied by exact equality on well-formed and ill-formed streams).",
   assumptions=["a stream is time-ordered with unique task starts/ends and times < 2^64; sums of durations < 2^64",
